@@ -1,7 +1,7 @@
 """C17 - array helpers, interval view and block averaging keep their contracts."""
 import numpy as np
 
-from .. import gen, tol
+from .. import callform, gen, tol
 from ..core import fp_watch
 from ..models import helpers as H
 
@@ -76,8 +76,9 @@ def run_case(ctx, kind_, idx):
                 a = arr(rng)
                 n = int(rng.integers(1, 17))
                 ain = a if rng.integers(0, 2) else (np.array(a) if h == "oversample_piecewise_constant" else a)
-                info.update({"a": a if len(a) <= 10 else len(a), "n": n})
-                got = getattr(U, h)(ain, n)
+                n_arg, nt = gen.count_arg(rng, n)
+                info.update({"a": a if len(a) <= 10 else len(a), "n": n, "n_type": nt})
+                got = callform.call(rng, getattr(U, h), "sau." + h, [ain, n_arg])
                 want = getattr(H, h)([float(v) for v in a], n)
                 mag = float(np.max(np.abs(a)))
                 if len(got) != (len(a) if n < 2 else (len(a) - 1) * n + 1):
@@ -105,8 +106,13 @@ def run_case(ctx, kind_, idx):
                     if direction == "both" and rng.integers(0, 2):      # one side explicit, other default
                         if n <= len(a) - 1:
                             kw.pop("lstart" if rng.integers(0, 2) else "rstop")
-                info.update({"a": a if len(a) <= 10 else len(a), "n": n, "direction": direction, "kw": kw})
-                got = getattr(U, h)(a, n, direction=direction, **kw)
+                n_arg, nt = gen.count_arg(rng, n)
+                info.update({"a": a if len(a) <= 10 else len(a), "n": n, "n_type": nt, "direction": direction, "kw": kw})
+                if direction == "both" and not kw and rng.integers(0, 2):
+                    got = getattr(U, h)(a, n_arg)                                   # documented default: both sides
+                else:
+                    got = callform.call(rng, getattr(U, h), "sau." + h, [a, n_arg], dict(kw, direction=direction),
+                                        p_pos=0.4)
                 want = getattr(H, h)([float(v) for v in a], n, direction, **kw)
                 nl = n if direction in ("both", "left") else 0
                 nr = n if direction in ("both", "right") else 0
@@ -207,8 +213,10 @@ def run_case(ctx, kind_, idx):
             elif h in ("interval_2d", "interval_closed"):
                 a = arr(rng, 1, 50)
                 n = int(rng.integers(1, 17))
-                info.update({"a": a if len(a) <= 10 else len(a), "n": n})
-                ia = IntervalArray(a if rng.integers(0, 2) else list(a), n)
+                n_arg, nt = gen.count_arg(rng, n)
+                info.update({"a": a if len(a) <= 10 else len(a), "n": n, "n_type": nt})
+                ia = callform.call(rng, IntervalArray, "IntervalArray", [a if rng.integers(0, 2) else list(a)], {"n": n_arg},
+                                   p_pos=0.5)
                 if h == "interval_2d":
                     got = ia.to_2d_array()
                     want = np.array(H.rows(a, n), dtype=float)
@@ -318,12 +326,22 @@ def run_case(ctx, kind_, idx):
                 x = np.cumsum(rng.uniform(0.1, 2, m))
                 y = arr(rng, m, m)
                 n = int(rng.integers(1, 17))
-                info.update({"len": m, "n": n})
-                gx, gy = average(x if rng.integers(0, 2) else list(x), y if rng.integers(0, 2) else list(y), n)
+                n_arg, nt = gen.count_arg(rng, n)
+                info.update({"len": m, "n": n, "n_type": nt})
+                if rng.integers(0, 8) == 0:
+                    # saturated / overflowed measurements: infinities are data, only the NaN padding is ignored
+                    y = np.asarray(y, dtype=float).copy()
+                    for q in rng.integers(0, m, int(rng.integers(1, 4))):
+                        y[int(q)] = [np.inf, -np.inf][int(rng.integers(0, 2))]
+                    info["infinite_values"] = True
+                    ctx.count("average:infinite_values")
+                gx, gy = callform.call(rng, average, "process.average",
+                                       [x if rng.integers(0, 2) else list(x), y if rng.integers(0, 2) else list(y), n_arg])
                 wx, wy = H.average(list(x), [float(v) for v in y], n)
                 if not np.array_equal(np.asarray(gx, float), np.asarray(wx, float)):
                     return fail("abscissae", got=gx, want=wx)
-                if not same(gy, wy, float(np.max(np.abs(y)))):
+                fin = np.asarray(y, dtype=float)[np.isfinite(np.asarray(y, dtype=float))]
+                if not same(gy, wy, float(np.max(np.abs(fin))) if len(fin) else 1.0):
                     return fail("row_means", got=gy, want=wy)
                 ctx.nontriv("c17", idx)
             else:  # round trip
@@ -331,8 +349,9 @@ def run_case(ctx, kind_, idx):
                 x = np.cumsum(rng.uniform(0.1, 2, m)) + rng.normal(0, 10)
                 y = rng.normal(0, 3, m)
                 n = int(rng.integers(2, 17))
-                info.update({"len": m, "n": n})
-                gx, gy = average(U.oversample_linspace(x, n), U.oversample_piecewise_constant(y, n), n)
+                n_arg, nt = gen.count_arg(rng, n)
+                info.update({"len": m, "n": n, "n_type": nt})
+                gx, gy = average(U.oversample_linspace(x, n_arg), U.oversample_piecewise_constant(y, n_arg), n_arg)
                 if not (np.array_equal(gx, x) and same(gy, y, float(np.max(np.abs(y))))):
                     return fail("average_of_oversampling_is_not_input", got=[gx, gy])
                 ctx.nontriv("c17", idx)
